@@ -52,6 +52,9 @@ func init() {
 type rcTwin struct {
 	r      *rux.Router
 	routes []*rux.Route
+	// sib: a second router configured with the SAME option values and the same table (handlers tagged differently); it
+	// serves every request just before r does. Routers are independent of each other, whatever they were built from.
+	sib *rux.Router
 }
 
 func rcBuild(c rcacheCase, cached bool) *rcTwin {
@@ -75,6 +78,9 @@ func rcBuild(c rcacheCase, cached bool) *rcTwin {
 		opts = append(opts, rux.StrictLastSlash)
 	}
 	t := &rcTwin{r: newRouter(opts...)}
+	if cached {
+		t.sib = rux.New(opts...)
+	}
 	for i, row := range rcacheTables[c.Table] {
 		tag := fmt.Sprintf("r%d", i+1)
 		ms := []string{}
@@ -84,6 +90,9 @@ func rcBuild(c rcacheCase, cached bool) *rcTwin {
 		t.routes = append(t.routes, t.r.AddNamed(tag, row[0].(string), func(cx *rux.Context) {
 			cx.Text(200, tag+"|"+paramsTag(cx.Params))
 		}, ms...))
+		if t.sib != nil {
+			t.sib.AddNamed(tag, row[0].(string), func(cx *rux.Context) { cx.Text(200, "SIBLING-"+tag) }, ms...)
+		}
 	}
 	return t
 }
@@ -133,6 +142,9 @@ func rcacheReplay(s *Summary, raw json.RawMessage) {
 		bad := func(aspect, what string) {
 			s.mismatch(map[string]any{"kind": "rcache", "aspect": aspect, "table": c.Table, "cap": c.Cap, "step": i + 1,
 				"method": st.M, "path": path, "what": where + ": " + what}, c)
+		}
+		if cached.sib != nil {
+			rcServe(cached.sib, st.M, path)
 		}
 		evs = evs[:0]
 		c1, b1, a1, p1 := rcServe(cached.r, st.M, path)
